@@ -430,6 +430,16 @@ def real_store_traces(scratch, tier, seed, v):
                     "ret": -1 if e["ret"] is None else e["ret"], "content": True})
             n_calls += len(trace)
             mode = (evs[0]["strict"], evs[0]["replace_all"])
+            # both stores run in the mode the SAMPLER was configured with
+            want = (bool(h["spec"]["kwargs"].get("strict_threshold", False)),
+                    bool(h["spec"]["kwargs"].get("replace_all", False)))
+            if tuple(map(bool, mode)) != want:
+                v.violation("store_mode_differs_from_sampler",
+                            f"the {'training' if store == 'tr' else 'independent'} store of a real importance-sampler "
+                            f"run works with strict_threshold={mode[0]}, replace_all={mode[1]} although the sampler "
+                            f"was configured with strict_threshold={want[0]}, replace_all={want[1]}: with a strict "
+                            f"threshold its live set is not exactly the samples at or above the threshold",
+                            {"spec": h["spec"], "store": store})
             by_mode.setdefault(mode, []).append((trace, len(vals), h["spec"]))
     n_ok = states = trans = 0
     for mode, items in by_mode.items():
@@ -441,6 +451,16 @@ def real_store_traces(scratch, tier, seed, v):
         states += tres.distinct
         trans += tres.generated
     v.note(f"real INS stores: {n_ok} store traces ({n_calls} OrderedSamples calls) validated against OrderedSamples.tla")
+    from .nsruns import validate_ins
+
+    done = [h for h in hs if h["codes"][-1] == 0]
+    if done:
+        irecords, _, _ = validate_ins(done, scratch, tag="c04ins")
+        for r in irecords:
+            if r["k"] == "P" and r["p"] == "C04":
+                hh = done[r["h"]]
+                v.violation("ins:" + r["c"], f"C04 clause '{r['c']}' fails at event {r['l']} of the real INS run "
+                            f"{json.dumps(hh['spec']['kwargs'])[:200]}", {"spec": hh["spec"], "event": r["ev"]})
     return n_ok, n_calls, states, trans
 
 
